@@ -9,12 +9,16 @@ import (
 var plainWords = []string{"a", "b", "x", "pkg", "mod", "go", "internal", "cmd", "v", "api", "z9", "foo-bar", "foo_bar", "a.b", "x.y.z"}
 var upperWords = []string{"A", "Azure", "BurntSushi", "Pkg", "MOD", "aB", "Ab", "AB", "K", "S", "README", "Makefile"}
 var reservedish = []string{"con", "CON", "Con", "prn", "aux", "AUX", "nul", "NUL", "com1", "COM9", "Com5", "lpt1", "LPT9", "com0", "com10", "lpt", "COM", "con.txt", "CON.a.b", "nul.go", "aux.", "com1.x", "xcon", "con1", "conx", "a.con", "Lpt3.tar.gz", "con~1", "nul~x"}
-var tildeForms = []string{"a~1", "a~12", "a~1.b", "a~b", "~1", "a~", "a~1b", "a.b~1", "a~1~2", "a~1~b", "~", "~~1", "a~0", "abcdef~1.txt", "a.~1", "a~1.", "x~y~1.z~2"}
+var tildeForms = []string{"a~1", "a~12", "a~1.b", "a~b", "~1", "a~", "a~1b", "a.b~1", "a~1~2", "a~1~b", "~", "~~1", "a~0", "abcdef~1.txt", "a.~1", "a~1.", "x~y~1.z~2", "rev~3", "snapshot~20240101", "v1~0.2.3", "RC~1", "v1.0.0~1", "2.0~rc1"}
 var dotForms = []string{".", "..", "...", ".a", "a.", ".a.", "a..b", ".git", ".gitignore", "a.b.", "..a", "a...b"}
-var unicodeForms = []string{"é", "日本語", "K", "ſ", "σς", "ǅ", "naïve", "x́", "a b", "İ", "ß", "π.go", "٣", "a​b"}
+var unicodeForms = []string{"é", "日本語", "K", "ſ", "σς", "ǅ", "naïve", "x́", "a b", "İ", "ß", "π.go", "٣", "a​b",
+	// Latin-1 and table boundaries: letters (U+00AA, U+00B5, U+00BA, U+00C0, U+00D6, U+00D8, U+00F6, U+00F8, U+00FE, U+00FF, U+0100, U+017F), non-letters (U+00D7, U+00F7, U+00A0, U+00AD, U+00B2)
+	"\u00aa", "\u00b5x", "\u00ba", "\u00c0", "\u00d6", "\u00d8", "\u00f6", "\u00f8", "\u00fe", "a\u00ffb", "\u00ff", "\u0100", "\u00d7", "a\u00f7b", "a\u00a0b", "a\u00adb", "x\u00b2",
+	// last code points of planes and blocks
+	"\uffff", "\U0001f600", "\U0002a6d6", "\U0010ffff", "\u2c65", "\u023a", "\u1e9e", "\u2126", "\u212b"}
 var punctAll = "!\"#$%&'()*+,-./:;<=>?@[\\]^_`{|}~ "
 var majorTails = []string{"v2", "v3", "v10", "v1", "v0", "v01", "v02", "v2.3", "v.2", "v2.", "v", "v2a", "V2", "v22", "v9999999999999999999999", "v1.0", "v2.0"}
-var gopkgTails = []string{"yaml.v2", "yaml.v3", "yaml.v0", "yaml.v1", "yaml.v1-unstable", "yaml.v2-unstable", "yaml.v01", "yaml.v00", "yaml.v", "yaml.v-unstable", "yaml.v0-unstable", "yaml.vx", "yaml", "yaml.v2-unstabl", "yaml.v10", "check.v1", ".v2", "v2", "yaml.V2", "yaml.v2-unstable-unstable", "user/pkg.v3", "pkg.v2.v3", "a.v2.3"}
+var gopkgTails = []string{"yaml.v2", "yaml.v3", "yaml.v0", "yaml.v1", "yaml.v1-unstable", "yaml.v2-unstable", "yaml.v01", "yaml.v00", "yaml.v", "yaml.v-unstable", "yaml.v0-unstable", "yaml.vx", "yaml", "yaml.v2-unstabl", "yaml.v10", "check.v1", ".v2", "v2", "yaml.V2", "yaml.v2-unstable-unstable", "user/pkg.v3", "pkg.v2.v3", "a.v2.3", "yaml/v2", "user/pkg/v3", "pkg.v1/v12", "yaml.v2/v2", "yaml/v1", "yaml/v2.0", "v3", "yaml.v2-beta", "yaml.v2-stable", "yaml.v2a", "yaml.v2-"}
 var firstElems = []string{"example.com", "github.com", "golang.org", "rsc.io", "a.b", "x-y.z", "9.9", "a.b.c", "localhost.localdomain"}
 var firstElemsBad = []string{"-a.b", "nodot", "Example.com", "a..b", "a_b.c", "a~b.c", "a.b.", ".a.b", "", "a+b.c", "é.com", "con.com", "a.con", "x.y~1"}
 
